@@ -281,6 +281,20 @@ func runSioTimers(sc sScenario, prefix, prefixN []int) (*sched.Exec, *sioRun) {
 				return nil
 			}
 			e.cancel()
+			sched.StopPendingTimers() // the old process's timers die with it
+			r.rec(rtimers.Ev{Kind: "restart"})
+			r.setEnv(newSioEnv(r, r.stored()))
+		case "down":
+			// the host goes down at a quiet message boundary, stays down for D ms (its timers die with it; the
+			// clock goes on), and boots from what it had on disk: timers that came due meanwhile are overdue
+			if !r.timersQuiet() || r.isBusy() || len(e.io.in) > 0 {
+				r.rec(rtimers.Ev{Kind: "restart-skipped"})
+				return nil
+			}
+			e.cancel() // the old process's goroutines see the cancellation and end
+			sched.StopPendingTimers()
+			vtime.Sleep(vtime.Duration(op.D) * vtime.Millisecond)
+			r.noteSlept()
 			r.rec(rtimers.Ev{Kind: "restart"})
 			r.setEnv(newSioEnv(r, r.stored()))
 		}
@@ -436,6 +450,18 @@ func sioScenarios(maxReq int, thorough bool) []sScenario {
 	// host has been told (the reported timers state), and a restart from that
 	sl := sOp{K: "sleep", D: 20}
 	rep := sOp{K: "reported"}
+	// the host is down while timers come due: after the boot they are overdue; requests that meet them
+	down := sOp{K: "down", D: 20}
+	for _, pre := range [][]sOp{
+		{{K: "make", Id: "1", D: 10}},
+		{{K: "make", Id: "1", D: 10}, {K: "make", Id: "2", D: 12}},
+		{{K: "make", Id: "1", D: 10}, {K: "make", Id: "2", D: 3600000}},
+	} {
+		for _, post := range [][]sOp{nil, {{K: "cancel", Id: "1"}}, {{K: "cancel", Id: "2"}}, {{K: "make", Id: "1", D: 10}}, {{K: "pending"}}, {{K: "cancel", Id: "1"}, {K: "make", Id: "1", D: 3600000}, {K: "pending"}}} {
+			req := append(append(append([]sOp{}, pre...), down), post...)
+			out = append(out, sScenario{Req: req}, sScenario{Req: req, Handler: []sOp{{K: "cancel", Id: "2"}}}, sScenario{Req: req, Handler: []sOp{{K: "make", Id: "2", D: 10}}})
+		}
+	}
 	for _, req := range [][]sOp{
 		{{K: "make", Id: "1", D: 10}, sl, rep, {K: "cancel", Id: "1"}, rep, restart, sl, {K: "pending"}},
 		{{K: "make", Id: "1", D: 10}, sl, {K: "makebad", Id: "3"}, rep, restart, sl, {K: "pending"}},
